@@ -7,21 +7,37 @@ RULE = ("exhaustive: (views) every two-node view over 5x5 service-list alphabets
         "{init,working,retired} (thorough: 5 states), each probed with 16 calls; (rules) 9 route functions x 5 default modes x 18 "
         "parameters (nil, sessions, maps, explicit names incl. unknown/empty/reserved, 4 non-parameter values) through Route, Request, "
         "Notify, RoutePID; (routes) every route of 0-4 (thorough 0-5) segments over {\"\",s1,s5}; (updates) every sequence of <=2 "
-        "(thorough <=4) view updates over 4 views with probes after each. random: 1-45 ops, <=4 nodes (duplicate ids/addresses "
+        "(thorough <=4) view updates over 4 views with probes after each; (calls) 2-4 calls in flight together, one per worker service "
+        "goroutine, run by a token-passing scheduler under the schedule the op carries: rules (registered and default) that stop at "
+        "scheduling points before / between / after reading their key, every ordered pair of 8 parameters (nil, 2 sessions, 3 key maps, "
+        "name, non-parameter) as Request/Request (different routes), Route/Notify, RoutePID/Request under 3 schedules, plus 3- and 4-call "
+        "mixes incl. malformed routes; (nested) a rule that calls Route(2,q) before reading its own key / between two reads with "
+        "scheduling points around it, x 5 inner rules (reader, kind switch, panicking, routing on to type 3, absent = default) x 8 nested "
+        "x 8 own parameters, alone (old ops and single-call OCalls) and 2-3 at a time. For every call of an OCalls the observation also "
+        "carries, per rule invocation and nesting depth, the kind it was handed, the value p.Get returned for each key it read and the "
+        "answer of each nested Route. random: 1-45 ops, 1-4 calls per OCalls with random schedules, rules with random prefixes "
+        "(yield / read / nested call; nested calls consult rules of higher types only, so no cycles), <=4 nodes (duplicate ids/addresses "
         "possible), states 0-5, <=4 services per node incl. malformed entries and reserved names, scripted route functions incl. "
         "panicking. Non-trivial = the history makes at least one routing decision while the view lists a service or a route function "
         "is installed; distinct = distinct op sequences.")
 TRUSTED_BASE = [
     "Coq 8.16.1 kernel + vm_compute (case evaluation, Examples, refutation witness); no native_compute",
     "hand translation node/route/route.go, node/app/{utils,serviceutils,clusterservices,cluster}.go -> C07/Model.v, measured by this correspondence run",
-    "Go harness harness/c07 (sender middleware + callback log on a real NodeService in a local protoactor system, token<->string maps, scripted route functions built from op data), bin/check.py JSON->Coq term printer",
+    "Go harness harness/c07 (sender middleware + callback log on real NodeServices (1 driver + 4 workers) in a local protoactor system, token<->string maps, scripted route functions built from op data which record what they are handed / read / get back, token-passing scheduler for OCalls), bin/check.py JSON->Coq term printer",
     "hook node/route/verif_export.go (tag verif): VerifDefaultRoute() getter so the harness can reinstall node/app's default route",
     "modelled not verified: protoactor (Send to a PID = delivery to the actor of that address+name; checked for the local address by recording actors), "
     "Go map iteration order over service types (model returns the set of admissible directory answers, compared by membership), "
     "remote.Serialize of the payload (a valid protobuf message is used), Service.RequestEx bookkeeping after the send (C01)",
 ]
 ASSUMPTIONS = [
-    "routing calls are made from the owning service's goroutine (sequential), as service.go requires",
+    "every routing call is made from the owning service's goroutine, as service.go requires; several services may be inside the route "
+    "layer at once. Proved for every interleaving of the calls at the granularity of Model.tstep (one read / type switch / nested call / "
+    "scheduling point / return of a rule per step; the route layer's own work between two such steps is atomic); the harness explores "
+    "interleavings at scheduling points inside route functions (AYield), one goroutine running at a time - word-level data races inside "
+    "the route layer are outside both",
+    "route functions are deterministic programs over: reads of the parameter they are handed, its kind, RouteService.Route, scheduling "
+    "points (Model.prog, arbitrary continuations); rules do not consult each other in a cycle (unbounded recursion is a fatal stack "
+    "overflow in Go); the executable model follows 8 levels of nesting",
     "service names are cluster-unique and none is one of the reserved words bad_route_param / miss_route_func / no_service "
     "(cell2 logs duplicates as an error); C07_default needs both for the chosen name, C07_target needs 'the view maps the name to one pid'; "
     "without them the proven statement is the weaker 'the single send goes to some entry carrying the name the rule returned'",
@@ -31,11 +47,14 @@ ASSUMPTIONS = [
 TECHNIQUE = ("Coq proof (executable model of Route/doRoute/RoutePID/defaultRoute/Request/Notify/QuerySession/Kick over arbitrary route functions "
              "and views; theorems by case analysis and induction over views/histories) + differential correspondence against the real "
              "route.RouteService, app.Cluster and app.Request/Notify/QuerySession/Kick on a real NodeService")
-LEVEL_TEXT = ("Machine-checked Coq theorems (27, all closed under the global context), unbounded over views, route functions, "
+LEVEL_TEXT = ("Machine-checked Coq theorems (36, all closed under the global context), unbounded over views, route functions, "
               "parameters, routes and histories: target (exactly one send, to the pid the view maps the rule's name to, nothing else), "
               "default (an instance of the type on a working node; guards unique/non-reserved name, with a refutation witness for the "
               "unguarded statement), no_service (every listed cause: no send, exactly one no-service callback / nothing), "
               "never_elsewhere, request_not_dropped, reserved_never_target, registered_wins (a panicking function does not fall back), "
               "front_* (QuerySession/Kick), view_updates (decision = function of the last view, last registrations, last default), "
-              "monitor soundness. The model follows the code repaired by hooks/C07-fix-*.patch and is tied to it by running both on "
+              "monitor soundness; for calls that overlap or nest, over arbitrary rule programs, pools and schedules: interleaving_frame (a "
+              "goroutine's state after any schedule = its own steps alone), eval_adequate + concurrent_calls_isolated (each call in flight "
+              "ends with the name and the view of its parameter it has when made alone), rule_sees_own_param, nested_call_is_call / "
+              "nested_call_frame, nested_result (the name is route's), schedule_irrelevant. The model follows the code repaired by hooks/C07-fix-*.patch and is tied to it by running both on "
               "the same histories each run; the property monitor is additionally evaluated on the implementation's own trace.")
